@@ -10,6 +10,7 @@ CONSTANTS
  MaxSize = {maxsize}
  MaxDepth = {depth}
  DoExport = {export}
+ ExportAtLevel = {atlevel}
 CONSTRAINT Bounded
 {ac}
 VIEW View
@@ -17,17 +18,35 @@ CHECK_DEADLOCK FALSE
 """
 
 
-def explore(v, tag, name, depth, export=True, maxstack=3, maxsize=5):
+def explore(v, tag, name, depth, export=True, maxstack=3, maxsize=5, simulate=None):
+    """BFS (default) or, with simulate=(num, seed), TLC random simulation of deep behaviours of MC_Gen"""
     wd = workdir(name)
-    res = run_tlc('MC_Gen', GEN_CFG.format(maxstack=maxstack, maxsize=maxsize, depth=depth, export='TRUE' if export else 'FALSE',
-                                           ac='ACTION_CONSTRAINT Export' if export else ''), wd)
-    tlc_must_be_clean(res, name)
+    res = run_tlc('MC_Gen', GEN_CFG.format(maxstack=maxstack, maxsize=maxsize, depth=depth, export='TRUE' if export else 'FALSE', atlevel=(depth - 1 if simulate else 0),
+                                           ac='ACTION_CONSTRAINT Export' if export else ''), wd,
+                  extra=(['-simulate', f'num={simulate[0]}', '-depth', str(depth), '-seed', str(simulate[1])] if simulate else None),
+                  workers=(4 if simulate else 16))
+    if not simulate:
+        tlc_must_be_clean(res, name)
+    elif res.error and 'Simulation' not in res.out:
+        raise MachineryError(f'TLC simulation failed on {name}: {res.error}')
     v.add_tlc(res)
     seqs = []
     for line in res.out.splitlines():
         line = line.strip()
         if line.startswith('"SEQ '):
             seqs.append(json.loads(json.loads(line)[4:]))
+    if simulate:       # keep only maximal behaviours (every transition printed its whole history)
+        keys = {json.dumps(s_['calls'], sort_keys=True) for s_ in seqs}
+        def is_prefix_of_other(s_):
+            k = json.dumps(s_['calls'], sort_keys=True)[:-1] + ','
+            return any(o.startswith(k) for o in keys)
+        uniq = {}
+        for s_ in seqs:
+            uniq[json.dumps([s_['phase'], s_['calls']], sort_keys=True)] = s_
+        seqs = list(uniq.values())
+        if len(seqs) > simulate[0] * 3:
+            import random
+            seqs = random.Random(simulate[1]).sample(seqs, simulate[0] * 3)
     pi2v.log(f'[{tag}] {name}: {res.distinct} states, {res.generated} transitions, {len(seqs)} call sequences exported, '
              f'{sum(1 for s in seqs if not s["good"])} predicted to break Rel, {res.wall:.1f}s')
     return seqs
